@@ -46,8 +46,11 @@ ASSUMPTIONS = [
 
 T0 = 4          # the sources fire at T0 + their instant; the start-up is over by then
 FATAL = 'HCMAENG'
-STOPS = 'XKR'
-KINDS = 'HCMAEXKSRUPNG'
+STOPS = 'XKRTY'
+KINDS = 'HCMAEXKSRUPNGTY'
+# T: a combinational block's output event sends 'shutdown' to _ctrl (a stop recorded from inside
+#    the simulation task) and the next block of the same evaluation round fails
+# Y: abort(CancelledError): a stop request that takes effect at once
 
 
 def configs(tier):
@@ -161,6 +164,17 @@ def one_exec(cfg, chooser):
         nblk = lblock_class()('nblk', log=log, cfg={'init_regular': ('set', 0), 'on_event': nested_bad})
         inp = edzed.Input('inp', initdef=0)
 
+        tinp = edzed.Input('tinp', initdef=0)
+        tfb = edzed.FuncBlock('tfb', func=lambda a: a, on_output=edzed.Event(
+            '_ctrl', 'shutdown', efilter=edzed.not_from_undef)).connect(tinp)
+
+        def tcalc(a):
+            if a == 'go':
+                obs['delivered'].append(('T2', excs['T'], sim.now))
+                raise excs['T']
+            return a
+        tfb2 = edzed.FuncBlock('tfb2', func=tcalc).connect(tfb)
+
         def calc(a):
             if a == 'boom':
                 obs['delivered'].append(('C', excs['C'], sim.now))
@@ -168,6 +182,7 @@ def one_exec(cfg, chooser):
             return a
         fb = edzed.FuncBlock('fb', func=calc).connect(inp)
         nets.set_ranks([fb, gfb], (1, 0) if cfg.get('cb_order') else (0, 1))
+        nets.set_ranks([tfb, tfb2], (2, 3))
         mtime = [t for k, t in seq if k == 'M']
 
         def task_fails(_blk):
@@ -212,6 +227,12 @@ def one_exec(cfg, chooser):
                     edzed.ExtEvent(ginp).send('go')
                 elif kind == 'A':
                     circuit.abort(excs['A'])
+                    state.setdefault('ready_after_stop', []).append((kind, circuit.is_ready()))
+                elif kind == 'Y':
+                    circuit.abort(asyncio.CancelledError('stop request'))
+                    state.setdefault('ready_after_stop', []).append((kind, circuit.is_ready()))
+                elif kind == 'T':
+                    edzed.ExtEvent(tinp).send('go')
                 elif kind == 'E':
                     edzed.ExtEvent(ctl).send(1)
                 elif kind == 'X':
@@ -368,7 +389,7 @@ def judge(cfg, obs):
     # expected kind of the first error: identity / documented wrapper
     if error is not None and not is_cancel(error):
         cause = error.__cause__
-        known = [excs[k] for k in 'HCMAENG']
+        known = [excs[k] for k in 'HCMAENGT']
         if error not in known and cause not in known:
             viol.append(('foreign-error', f"{tag}: Circuit.error = {error!r} (cause {cause!r})"))
         if (error is excs['H']) or (cause is excs['H'] and not isinstance(error, edzed.EdzedCircuitError)):
@@ -416,6 +437,9 @@ def judge(cfg, obs):
                 viol.append(('missing-parameter-report', f"{tag}: {err!r}"))
         if {'U', 'P'} & set(kinds) - {k for k, _e in obs['errors']}:
             viol.append(('bad-event-not-reported', f"{tag}: caller saw {obs['errors']}"))
+    for k, ready in st.get('ready_after_stop', []):
+        if ready:
+            viol.append(('ready-after-stop', f"{tag}: is_ready() is true right after the stop request {k}"))
     # 5. stopped stays stopped, the error stays
     if st.get('ready_end') or st.get('ready_end2') or st.get('late_send') != 'refused':
         viol.append(('ready-after-stop', f"{tag}: is_ready {st.get('ready_end')}/{st.get('ready_end2')}, "
